@@ -131,6 +131,11 @@ fn alpha_rules() -> Vec<(String, String)> {
     v.push(("%:[αstress, βsec.stress] > [αstress, βsec.stress]".into(), "alpha-stress-pair".into()));
     v.push(("V:[αlong] > [αlong]".into(), "alpha-long".into()));
     v.push(("a:[αlong, βoverlong] > a:[αlong, βoverlong]".into(), "alpha-length-ipa".into()));
+    // the same values copied onto the element they were read from through a variable (`V:[αlong]=1 > 1:[αlong]`): both captures at once
+    for (x, m) in [("V", "αlong"), ("[]", "αoverlong"), ("C", "αlong"), ("V", "αlong, βoverlong"), ("[]", "αlong, βoverlong"), ("V", "αnasal"), ("[]", "αvoice"), ("V", "αlong, βnasal")] {
+        v.push((if x == "[]" { format!("[{}]=1 > 1:[{}]", m, m) } else { format!("{}:[{}]=1 > 1:[{}]", x, m, m) }, "alpha-l-var".to_string()));
+    }
+    for m in ["αstress", "αstress, βsec.stress"] { v.push((format!("%:[{}]=1 > 1:[{}]", m, m), if m == "αstress" { "alpha-stress-alone".to_string() } else { "alpha-stress-pair".to_string() })); }
     v
 }
 
